@@ -91,7 +91,7 @@ fn site_analysis_loop(config: &Cfg, stop_flag: &StopFlag, stats_send: &mut Sende
     requires old(validator_dispatcher).dispatched@.len() == 0, old(data_recv).taken@.len() == 0, !old(validator_dispatcher).joined@,
     ensures
         final(validator_dispatcher).joined@, // [C04][C14] the validator threads are joined when the loop ends (their statistics are complete before the run ends)
-        cfg_check() ==> final(validator_dispatcher).dispatched@ =~= final(data_recv).taken@, // [C14][C01][C02] every batch received is handed to the validators exactly once, in arrival order
+        cfg_check() ==> final(validator_dispatcher).dispatched@ =~= final(data_recv).taken@, // [C14][C01][C02][C06] every batch received is handed to the validators exactly once, in arrival order
         !cfg_check() ==> final(validator_dispatcher).dispatched@.len() == 0, // [C01] without a check command nothing is validated
 {
 //@EXTRACT analysis_loop
